@@ -191,6 +191,10 @@ package config
 //@   ensures result ==> (exists i int :: 0 <= i && i < len(ds) && targets(ds[i].Match, name, check.String(), promTags)) ||
 //@              (exists j int :: 0 <= j && j < len(ss) && targets(ss[j].Match, name, check.String(), promTags))
 //@   ensures (exists i int :: 0 <= i && i < len(ds) && targets(ds[i].Match, name, check.String(), promTags)) ==> result
+// an expired snooze changes nothing: the snooze exit is only taken for a snooze that ends after the clock reading just taken
+//@   ghost now time.Time
+//@   after call Now set now = result0
+//@   at return#2 assert snooze.Until.After(now) && targets(snooze.Match, name, check.String(), promTags)
 //@   loop 1 invariant 0 <= iter1 && iter1 <= len(promTags) && fresh(matches)
 //@   loop 1 invariant spellings(matches, name, check.String(), promTags, iter1)
 //@   loop 2 invariant 0 <= iter2 && iter2 <= len(ds)
